@@ -49,7 +49,8 @@ let try_line order ks =
     Printf.sprintf "%d:%s:%s" (int_of_nat k) (dot_ints v)
       (match r with Some x -> "e" ^ string_of_int (int_of_nat x) | None -> "ok")) ks)
 
-let builder_case id ops_s tf_s =
+let builder_case ?(timed=false) id ops_s tf_s =
+  if timed then obs id "BT" "ok";
   let ops = parse_ops ops_s in
   let (g, rs) = run_ops empty_dag ops in
   obs id "R" (if rs = [] then "-" else String.concat " " (List.map str_res rs));
@@ -102,11 +103,12 @@ let handle line =
   | hd :: rest ->
     let hd_t = List.filter (fun t -> t <> "") (String.split_on_char ' ' hd) in
     (match hd_t, rest with
-     | "CASE" :: "B" :: id :: _, [ops; tf] ->
+     | "CASE" :: "B" :: id :: fam, [ops; tf] ->
        print_endline line;
+       let timed = (match fam with f :: _ -> String.length f >= 5 && String.sub f 0 5 = "timed" | [] -> false) in
        let tf = String.trim tf in
        let tf = match strip_prefix "tf=" tf with Some x -> x | None -> "" in
-       builder_case id ops tf
+       builder_case ~timed id ops tf
      | "CASE" :: "BP" :: id :: _, [a; b] -> print_endline line; pair_case id a b
      | "CASE" :: kind :: id :: _, _ ->
        print_endline line;
